@@ -45,7 +45,25 @@ inductive Doc where
   | container (roots : List (Str × Str))
   /-- `package`: manifest `(id, href)` in document order, spine idrefs -/
   | opf (manifest : List (Str × Str)) (spine : List Str)
+  /-- `Relationships` with the `Type` attribute kept: `(Id, Type, Target)` in document
+  order (the relationship part of a slide: `parseSlideNotes` selects by `Type`) -/
+  | relsT (rs : List (Str × Str × Str))
+  /-- root element `notes` (a notes slide) -/
+  | notes
   deriving DecidableEq, Repr
+
+/-- what unmarshalling into `relationshipsXML` yields, `Type` dropped: `(Id, Target)` -/
+def Doc.relPairs? : Doc → Option (List (Str × Str))
+  | .rels rs => some rs
+  | .relsT rs => some (rs.map fun r => (r.1, r.2.2))
+  | _ => none
+
+/-- what unmarshalling into `relationshipsXML` yields, `Type` kept (a part given as
+`.rels` carries no types: `""`) -/
+def Doc.relTriples? : Doc → Option (List (Str × Str × Str))
+  | .rels rs => some (rs.map fun r => (r.1, [], r.2))
+  | .relsT rs => some rs
+  | _ => none
 
 abbrev Docs := Nat → Doc
 
@@ -208,13 +226,9 @@ abbrev SheetPart := Nat × Nat × Str
 else no relationships at all (they are optional); unmarshal failure is an error -/
 def xlsxRels (look : Str → Option Nat) (x : Docs) : Option (List (Str × Str)) :=
   match look sXlRels with
-  | some c => match x c with
-    | .rels rs => some rs
-    | _ => none
+  | some c => (x c).relPairs?
   | none => match look sXlRelsAlt with
-    | some c => match x c with
-      | .rels rs => some rs
-      | _ => none
+    | some c => (x c).relPairs?
     | none => some []
 
 /-- the target path `parseWorksheets` asks for first: relationship target or the
@@ -276,9 +290,9 @@ abbrev SlidePart := Nat × Nat
 def pptxRels (look : Str → Option Nat) (x : Docs) : Option (Option (List (Str × Str))) :=
   match look sPresRels with
   | none => some none
-  | some c => match x c with
-    | .rels rs => some (some rs)
-    | _ => none
+  | some c => match (x c).relPairs? with
+    | some rs => some (some rs)
+    | none => none
 
 /-- one `sldId`: its relationship target resolved against `ppt/` (absolute targets
 against the package root); no target, no path -/
